@@ -199,6 +199,27 @@ def check_advance(real, ref, states, incs, viol, tag, pairs=False):
         for n in incs:
             exp = ref.advance(a, n)
             if exp is None:
+                # outside the advance law - except that "unmapped banks are rejected": if the textbook result lies in a bank
+                # that no declaration maps, the implementation must raise, or hand back an address that is itself rejected
+                if not r.ram and n > 0:
+                    off = ref.phys(a) + n
+                    res = ref.from_offset(r, off)
+                    if off >= r.nbanks * r.size and 0 <= (res >> 16) <= 0xFF and (res >> 16) not in ref.bank:
+                        evals += 1
+                        try:
+                            got = ra + n
+                            gp = got.physical
+                            try:
+                                real.get_address(got.logical_value)
+                                still_mapped = True
+                            except Exception:  # noqa: BLE001
+                                still_mapped = False
+                            if not still_mapped and gp is not None:
+                                viol.append({"key": "bus:advance-into-unmapped-bank-accepted",
+                                             "msg": f"{tag}: {a:#08x}+{n:#x} leaves the mapped range into unmapped bank {got.logical_value >> 16:#04x} "
+                                                    f"but yields an address with file offset {gp:#x}"})
+                        except Exception:  # noqa: BLE001
+                            pass
                 continue
             evals += 1
             if (exp >> 16) != (a >> 16):
